@@ -12,6 +12,7 @@ import (
 	"verif/harness/checks/c06"
 	"verif/harness/checks/c07"
 	"verif/harness/checks/c08"
+	"verif/harness/checks/c09"
 	"verif/harness/vf"
 )
 
@@ -24,6 +25,7 @@ var checks = map[string]func(*vf.Check){
 	"C06": c06.Run,
 	"C07": c07.Run,
 	"C08": c08.Run,
+	"C09": c09.Run,
 }
 
 func main() {
